@@ -291,10 +291,14 @@ func cmdCheck(args []string) int {
 			why := "obligation not discharged: solver answered " + ob.Result
 			p := writeReplay(replayDir, ob, why)
 			tail := " no-failing-input-found"
-			if ob.Result == "sat" {
-				if ok := tryReplay(*repo, *verif, ob, p); ok {
+			if ob.Result == "sat" && os.Getenv("GOVC_NOREPLAY") == "" {
+				rr := eng.replay(ob)
+				ob.Replay = rr
+				p = writeReplay(replayDir, ob, why)
+				if rr.Confirmed {
 					tail = ""
 				}
+				fmt.Printf("  replay: confirmed=%v %s\n", rr.Confirmed, rr.Detail)
 			}
 			fmt.Printf("VIOLATION property=%s replay=%s%s\n", *prop, p, tail)
 			fmt.Printf("  failed obligation: %s [%s] at %s\n  %s\n", ob.Name, ob.Result, ob.Pos, ob.Text)
@@ -422,7 +426,12 @@ func writeReplay(dir string, ob *Obligation, why string) string {
 	if len(model) > 20000 {
 		model = model[:20000]
 	}
+	var rep any
+	if ob.Replay != nil {
+		rep = map[string]any{"confirmed_on_real_code": ob.Replay.Confirmed, "detail": ob.Replay.Detail, "inputs": ob.Replay.Inputs, "predicted_outputs": ob.Replay.Predicted, "observed_outputs": ob.Replay.Observed, "generated_test": ob.Replay.TestFile}
+	}
 	data, _ := json.MarshalIndent(map[string]any{
+		"replay":     rep,
 		"property":   ob.Prop,
 		"obligation": ob.Name,
 		"kind":       ob.Kind,
@@ -439,7 +448,3 @@ func writeReplay(dir string, ob *Obligation, why string) string {
 	return p
 }
 
-// tryReplay: replay drivers are attached per obligation family; none generic yet.
-func tryReplay(repo, verif string, ob *Obligation, replayPath string) bool {
-	return false
-}
